@@ -1,7 +1,7 @@
 /*@harness
-{"tier":"quick","mode":"bounded(include names of at most 5 characters over the alphabet {a . /}, including file d/f.c or f.c)","tus":["lib/lpc/lex.c"],"dfcc":false,
+{"tier":"quick","mode":"bounded(include names of at most 4 characters over the alphabet {a . /}, including file d/f.c or f.c)","tus":["lib/lpc/lex.c"],"dfcc":false,
  "functions":["inc_open","inc_lexically_normal","has_dotdot_component"],
- "flags":["--bounds-check","--pointer-check","--object-bits","11"],"unwind":9,"timeout":900,
+ "flags":["--bounds-check","--pointer-check","--object-bits","11"],"unwind":8,"timeout":900,
  "expect":["open.assertion","inc_lexically_normal.pointer_dereference"],
  "ignore":[{"class":"overflow","text_contains":"strncat (dest, from, slash - from)","why":"CBMC reports signed overflow on the pointer difference slash - from == -1 (from one past slash after skipping slashes); natively defined and UBSan-clean - the resulting huge strncat bound is covered by the bounds obligations"}],
  "native":{"rename":["open"]},
@@ -37,7 +37,7 @@ extern char *current_file;
 void h_include_paths(void) {
   static char buf[1024]; static char name[6]; static char base1[] = "d/f.c", base2[] = "f.c";
   V_FILL(main_options_t, G_opts, opts); g_main_options = &G_opts;
-  V_DECL(int, n); V_ASSUME(1 <= n && n <= 5);
+  V_DECL(int, n); V_ASSUME(1 <= n && n <= 4);
   V_DECL(int, c0); V_DECL(int, c1); V_DECL(int, c2); V_DECL(int, c3); V_DECL(int, c4);
   int cs[5] = {c0, c1, c2, c3, c4};
   for (int i = 0; i < 5; i++) { V_ASSUME(cs[i] == 'a' || cs[i] == '.' || cs[i] == '/'); name[i] = i < n ? (char)cs[i] : 0; }
@@ -45,5 +45,5 @@ void h_include_paths(void) {
   V_DECL(int, which_base); current_file = which_base ? base1 : base2;
   int fd = V_STATIC(lex_c, inc_open)(buf, name);
   V_ASSERT(fd == -1, "nothing is opened in this harness (every open is refused by the stub)");
-  V_COVER(G_opens == 1 && n == 5);
+  V_COVER(G_opens == 1 && n == 4); V_COVER(G_opens == 0);
 }
